@@ -108,9 +108,21 @@ class SchedLock(object):
     def locked(self):
         return self.owner is not None
 
+    def acquire(self, blocking=True, timeout=-1):
+        self.__enter__()
+        return True
+
+    def release(self):
+        self.__exit__()
+
     def __enter__(self):
         b = self.baton
-        tid = b.local.tid
+        tid = getattr(b.local, "tid", None)
+        if tid is None:
+            # a thread the scheduler does not know (the main thread preparing the scenario): a plain, uncontended lock
+            assert self.owner is None, "lock %s contended outside the schedule" % self.name
+            self.owner = "main"
+            return self
         held = getattr(b.local, "held", [])
         ctx = getattr(b.local, "ctx", "")
         if not any(h in self.no_yield_under for h in held):
@@ -125,6 +137,9 @@ class SchedLock(object):
 
     def __exit__(self, *a):
         b = self.baton
+        if getattr(b.local, "tid", None) is None:
+            self.owner = None
+            return False
         self.owner = None
         b.local.held = [h for h in b.local.held if h != self.name] if self.name in b.local.held else b.local.held
         b.log.append((b.local.tid, "rel", self.name, getattr(b.local, "ctx", ""), ()))
